@@ -527,6 +527,9 @@ impl<Backing : AsRef<[u32]> + AsMut<[u32]>> DrawTarget<Backing> {
     }
 
     fn apply_path(&mut self, path: &Path) {
+        // every path starts afresh: don't continue from where the previous one ended
+        self.current_point = None;
+        self.first_point = None;
 
         // we have no height so there can be no edges
         if self.height == 0 {
